@@ -11,17 +11,55 @@ TRUSTED = ('Trusted base: /verif/contracts/prelude.rs (assumed contracts of std:
 
 # property -> (claimed?, level text, technique, design ref, n/a reason)
 CLAIMS = {
+    'C01': (True,
+            'Unbounded deductive proof (Verus) that the real decoder REFINES a spec decoder transcribed from the LZMA format document: '
+            'range decoder (decode_bit, normalize, direct bits, bit trees, reverse trees, length decoder), literal / distance / symbol '
+            'step (process_next_inner == sp_step for every state, lc/lp/pb, rep rotation, state table), window (append_lz == lz_copy for '
+            'every dict size incl. wrap), symbol loop (process_mode == sp_run, with a verified lexicographic termination measure), header '
+            '(props byte, dict clamp to 4096, size field), up to the public lzma_decompress_with_options: Ok => output is exactly the '
+            'spec output; spec success + reliable source + infallible sink + memory limit not exceeded => Ok. Spec None => Err.',
+            'Verus refinement proofs (function contracts, loop invariants, spec lemmas) on mechanically extracted real code', '5 C01'),
+    'C02': (True,
+            'Unbounded deductive proof (Verus): Lzma2Decoder::{decompress, parse_lzma, parse_uncompressed} and lzma2_decompress refine '
+            'the LZMA2 chunk-layer spec sp_lzma2 (control byte classes, reset classes, 16/21-bit sizes + 1, props byte, dictionary and '
+            'model carried across chunks, state reset == fresh model, target size = history + declared size, payload limited to the '
+            'declared packed size through a verified Take stand-in); soundness and completeness both directions.',
+            'Verus refinement proofs on mechanically extracted real code', '5 C02'),
+    'C08': (True,
+            'Unbounded deductive proof (Verus): read_header consumes exactly 13/13/5 bytes and computes the size in effect per option '
+            '(caller-supplied size overrides the header field); process_mode(Finish) == sp_run: with a size n success implies exactly n '
+            'bytes (early marker, overshooting match, exhausted input are errors); without a size, success implies end marker with '
+            'Code == 0 and no input left -- or the explicitly carved-out marker-less stop (known finding F-C08).',
+            'Verus function contracts against the format spec', '5 C08'),
     'C09': (True,
             'Unbounded deductive proof (Verus) on the real LzCircularBuffer / LzAccumBuffer code: last_n and append_lz return Err and '
             'leave window and sink untouched iff dist exceeds the bytes produced or the dictionary size; otherwise the result is the '
             'LZ77 copy of the abstract output (lz_copy), independent of window capacity and of stale cells; the zero default in '
-            'LzCircularBuffer::get is proved dead (precondition index < buf.len() discharged at every call site).',
+            'LzCircularBuffer::get is proved dead (precondition index < buf.len() discharged at every call site); the symbol step '
+            'rejects (spec None => Err, sink unchanged) every out-of-window distance.',
             'Verus function contracts + loop invariants on mechanically extracted real code', '5 C09'),
     'C10': (True,
             'Unbounded deductive proof (Verus): LzCircularBuffer::set fails iff the window would have to grow beyond memlimit and then '
             'changes nothing; append_literal/append_lz with an infallible sink fail iff min(dict_size, produced) would exceed the '
-            'limit; invariant buf.len() <= memlimit; the Ok postconditions do not mention memlimit (same behaviour as unlimited).',
+            'limit; invariant buf.len() <= memlimit; LzmaDecoder::new/decompress and lzma_decompress_with_options pass the limit '
+            'unchanged and succeed whenever mem_ok(dict, limit, produced) (completeness clause). Streaming path: see C05 status.',
             'Verus function contracts + data-structure invariant on mechanically extracted real code', '5 C10'),
+    'C11': (True,
+            'Unbounded deductive proof (Verus): every reader-advancing function states advanced(input, k) with k the spec decoder byte '
+            'count; LzmaDecoder::decompress / lzma_decompress_with_options: Ok => input.remaining() == spec remaining input; '
+            'Lzma2Decoder::decompress: Ok => input advanced to just after the end control byte; end marker accepted only with no input left.',
+            'Verus function contracts with a two-state source frame relation (src_eq)', '5 C11'),
+    'C14': (True,
+            'Unbounded deductive proof (Verus): DecoderState::new and reset_state establish fresh(props) over the COMPLETE state (every '
+            'probability array, trees, length decoders, state, reps, literal table of the right dimension), fresh states have the same '
+            'model view (lemma_fresh_model), LzmaDecoder::reset / Lzma2Decoder::reset re-establish the precondition of decompress, and '
+            'decompress is a function of the view only.',
+            'Verus function contracts (field-by-field fresh predicate)', '5 C14'),
+    'C17': (True,
+            'Unbounded deductive proof (Verus): sp_lzma2 returns None for control bytes 0x03-0x7F, props >= 225 or lc+lp > 4, payload '
+            'needing more than the declared packed size, produced size != declared size, short uncompressed chunk, missing end byte; '
+            'the real decoder returns Err whenever the spec does (reject clauses on decompress / parse_lzma / parse_uncompressed).',
+            'Verus refinement proofs on mechanically extracted real code', '5 C17'),
 }
 NOT_YET = 'check not built yet (build in progress; see DESIGN.md section 8)'
 
